@@ -25,9 +25,12 @@ same extensional filter, and the recorded calls are compared with the model's `a
 """
 import datetime
 import io
+import json
 import random
 import logging
 import os
+import pathlib
+import re
 import shutil
 import tempfile
 import warnings
@@ -49,6 +52,10 @@ EXTRA = {
         "fixer=; every read of a case gets a fresh one, so nothing a fixer remembers between reads can mask or cause a "
         "difference; nanosecond-precision timestamps next to dates outside the nanosecond range (DESIGN §13.5) are kept "
         "out of the generated well-formed tables",
+        "outside the statement's domain, observed on the library and not judged: a callable filter that is falsy "
+        "(e.g. defines __len__ returning 0) is ignored by `if filter:` and everything is delivered; a predicate that "
+        "raises ValueError surfaces as an input error located at that block (the wrapper runs inside block_output's "
+        "try); how often the predicate is consulted per block is not part of the property (a caller may memoise)",
         "predicates are total, pure functions of (type, name); the model's filter is their extensional table over "
         "the observed pairs plus a default",
     ],
@@ -117,13 +124,17 @@ SEPS = [";", ",", "|", "\t", "~"]
 def _san(c, excel):
     """keep a cell writable as CSV text / as an openpyxl cell"""
     if isinstance(c, str):
-        c = c.replace("\n", " ").replace("\r", " ")
+        c = str(c).replace("\n", " ").replace("\r", " ")          # (numpy.str_ -> str)
         if excel:
             c = "".join(ch for ch in c if ch == "\t" or ord(ch) >= 32)
             if c.startswith("="):
                 c = "'" + c
     elif isinstance(c, float) and (c != c or c in (float("inf"), float("-inf"))):
         c = 1.25
+    elif isinstance(c, float):
+        c = float(c)                                                # (numpy.float64 -> float)
+    elif isinstance(c, datetime.datetime) and c.tzinfo is not None and excel:
+        c = c.replace(tzinfo=None)                                  # Excel has no zone-aware datetimes
     elif isinstance(c, int) and not isinstance(c, bool) and abs(c) > 10 ** 15:
         c = 12345
     elif isinstance(c, (datetime.date, datetime.time)) and not isinstance(c, datetime.datetime):
@@ -238,16 +249,24 @@ def gen_stream(rng, native, long_rows=None):
 class Source:
     """one input through one API; `seen` = the row lists parse_blocks receives, per sheet"""
 
-    def __init__(self, api, sheets, tmp, sep=None, tag="s"):
+    def __init__(self, api, sheets, tmp, sep=None, tag="s", extra=None):
+        """extra: {"csv_route": None | "str" | "path", "pattern": None | regex for sheet_name_pattern,
+                   "origin": None | str}"""
         self.api, self.sep, self.tmp = api, sep, tmp
+        self.extra = dict(extra or {})
         self.shared = False          # parse_blocks route: every read gets the SAME row objects (no copy per read)
         self.last_rows = None
+        self.selected = [0]
         if api == "parse_blocks":
             self.seen = [[list(r) for r in sheets[0]]]
             self.snapshot = grid_to_json(self.seen[0])      # deep snapshot of what the caller holds
         elif api == "read_csv":
             self.text = "\n".join(sep.join(r) for r in sheets[0]) + "\n"
             self.seen = [[line.rstrip("\n").split(sep) for line in io.StringIO(self.text)]]
+            if self.extra.get("csv_route"):
+                self.csv_path = os.path.join(tmp, f"{tag}.csv")
+                with open(self.csv_path, "w", encoding="utf-8", newline="\n") as f:
+                    f.write(self.text)
         else:
             import openpyxl
             self.path = os.path.join(tmp, f"{tag}.xlsx")
@@ -263,6 +282,11 @@ class Source:
                 self.seen = [[list(r) for r in ws.iter_rows(values_only=True)] for ws in wb.worksheets]
             finally:
                 wb.close()
+            # read_excel(sheet_name_pattern=...): only the sheets whose name matches (re.match) are read
+            pat = self.extra.get("pattern")
+            self.selected = [i for i in range(len(self.seen)) if pat is None or re.match(pat, f"sh{i}")]
+        self.seen_all = self.seen
+        self.seen = [self.seen_all[i] for i in self.selected]
 
     def read(self, to, pred, tracker, fx=None):
         from pdtable.io.parsers.blocks import parse_blocks
@@ -270,11 +294,18 @@ class Source:
         kw = dict(to=to, filter=pred, issue_tracker=tracker)
         if fx is not None:
             kw["fixer"] = fixer_arg(fx)
+        if self.extra.get("origin") is not None:
+            kw["origin"] = self.extra["origin"]
         if self.api == "parse_blocks":
             self.last_rows = self.seen[0] if self.shared else [list(r) for r in self.seen[0]]
             return parse_blocks(iter(self.last_rows), **kw)
         if self.api == "read_csv":
-            return read_csv(io.StringIO(self.text), sep=self.sep, **kw)
+            route = self.extra.get("csv_route")
+            source = io.StringIO(self.text) if not route else \
+                (self.csv_path if route == "str" else pathlib.Path(self.csv_path))
+            return read_csv(source, sep=self.sep, **kw)
+        if self.extra.get("pattern") is not None:
+            kw["sheet_name_pattern"] = re.compile(self.extra["pattern"])
         return read_excel(self.path, **kw)
 
 
@@ -331,16 +362,28 @@ def run_read(src, to, pred, tracker_kind, fx=None):
 
 
 def segmentation(rows):
-    """the implementation's own cut of a row list into blocks: [(type name, start index, n rows, head cell)]"""
+    """the implementation's own cut of a row list into blocks: [(type name, start index, n rows, head cell)].
+    Blocks are located by CONTENT (the rows of a block are a subsequence of the input, matched greedily from where
+    the previous block ended) — not by the identity of row objects, which a splitter is free to copy.  Returns None
+    if a block holds a row that is not in the input."""
     from pdtable import BlockType
     from pdtable.io.parsers.blocks import parse_blocks_stable, make_raw_cells
-    objs = [list(r) for r in rows]
-    pos = {id(r): i for i, r in enumerate(objs)}
-    out = []
+    keys = [json.dumps(r, sort_keys=True, default=str) for r in grid_to_json(rows)]
+    out, cursor = [], 0
     with warnings.catch_warnings():
         warnings.simplefilter("ignore")
-        for bt, grid in parse_blocks_stable(iter(objs), block_handlers={b: make_raw_cells for b in BlockType}):
-            out.append((bt.name, pos[id(grid[0])], len(grid), grid[0][0] if len(grid[0]) else None))
+        for bt, grid in parse_blocks_stable(iter([list(r) for r in rows]),
+                                            block_handlers={b: make_raw_cells for b in BlockType}):
+            start = None
+            for gk in (json.dumps(r, sort_keys=True, default=str) for r in grid_to_json(grid)):
+                while cursor < len(keys) and keys[cursor] != gk:
+                    cursor += 1
+                if cursor >= len(keys):
+                    return None
+                if start is None:
+                    start = cursor
+                cursor += 1
+            out.append((bt.name, start, len(grid), grid[0][0] if len(grid[0]) else None))
     return out
 
 
@@ -454,9 +497,13 @@ def one_case(rng, out, seed, idx, tmp, ops, pend, model_ok):
     else:
         sheets = [[[str(c) if isinstance(c, (datetime.date, datetime.time)) and not isinstance(c, datetime.datetime)
                     else c for c in r] for r in rows] for rows in sheets]
-    src = Source(api, sheets, tmp, sep, tag=f"c{idx}")
+    # never-combined-before routes: read_csv by path, read_excel(sheet_name_pattern=...), origin= — each with a filter
+    extra = {"csv_route": rng.choice([None, None, "str", "path"]) if api == "read_csv" else None,
+             "pattern": rng.choice([None, None, "sh0", "sh1", "sh", "sh[01]$", "nomatch"]) if api == "read_excel" else None,
+             "origin": rng.choice([None, None, "somewhere.csv"]) if api != "read_excel" else rng.choice([None, "wb"])}
+    src = Source(api, sheets, tmp, sep, tag=f"c{idx}", extra=extra)
     case = {"seed": seed, "index": idx, "api": api, "to": to, "tracker": tracker, "fixer": fx, "sep": sep,
-            "sheets": [grid_to_json(s) for s in src.seen],
+            "sheets": [grid_to_json(s) for s in src.seen_all], "extra": extra,
             # half of the parse_blocks cases: all reads of the case (unfiltered, filtered, rewritten) run on the
             # caller's own row objects, as a caller holding one list of rows would do
             "shared": api == "parse_blocks" and rng.random() < 0.5,
@@ -474,7 +521,7 @@ def eval_case(case, out, tmp, ops, pend, model_ok, src=None):
     idx, sub = case.get("index", 0), case.get("sub", 0)
     case = dict(case)
     if src is None:
-        src = Source(api, [cells_from_json(s) for s in case["sheets"]], tmp, sep, tag=f"r{idx}")
+        src = Source(api, [cells_from_json(s) for s in case["sheets"]], tmp, sep, tag=f"r{idx}", extra=case.get("extra"))
     src.shared = bool(case.get("shared"))
     if src.shared:
         out.count("parse_blocks:same_row_objects_for_every_read")
@@ -484,6 +531,9 @@ def eval_case(case, out, tmp, ops, pend, model_ok, src=None):
     out.count("to:" + to)
     out.count("tracker:" + tracker)
     out.count("fixer:" + str(fx))
+    for k_, v_ in (case.get("extra") or {}).items():
+        if v_ is not None:
+            out.count("route:%s=%s" % (k_, v_))
 
     # --- frame: the unfiltered read, collecting; reported names from the pdtable form
     def unchanged(R, which):
@@ -495,6 +545,9 @@ def eval_case(case, out, tmp, ops, pend, model_ok, src=None):
     U = unchanged(run_read(src, to, None, "collecting", fx), "unfiltered")
     Upd = U if to == "pdtable" else unchanged(run_read(src, "pdtable", None, "collecting", fx), "unfiltered pdtable")
     segs = [segmentation(rows) for rows in src.seen]
+    if any(sg is None for sg in segs):
+        out.mismatch("the splitter delivered a row that is not in the input", case, None, None)
+        return
     flat = [(si, s) for si, sg in enumerate(segs) for s in sg]
     escaped = any(e[0] == "escaped" for e in U["events"]) or any(e[0] == "escaped" for e in Upd["events"])
     if escaped:
@@ -560,32 +613,58 @@ def eval_case(case, out, tmp, ops, pend, model_ok, src=None):
                           (":empty" if e[0] == "block" and e[2]["val"].get("metadata") == [] else ""))
     out.count("ending:" + (F["ending"] if isinstance(F["ending"], str) else next(iter(F["ending"]))))
 
-    # --- oracle: calls + exactness, walking the frame
+    # --- oracle: calls + exactness, walking the frame.  What is judged: every processed block was preceded by a call
+    # with ITS pair (type, reported name) — asked just now, or asked before (a caller may memoise a pure predicate) —
+    # and what the filtered read yields is the frame filtered by the verdicts on those pairs.  HOW OFTEN the
+    # predicate is asked is counted as evidence only.
     ok = True
-    exp_blocks, exp_issues, exp_end, consumed = [], [], "exhausted", 0
+    exp_blocks, exp_issues, exp_end = [], [], "exhausted"
+    ptr, asked, pairs_used = 0, set(), []
+
+    def consume(pair):
+        nonlocal ptr
+        while ptr < len(rec_f) and tuple(rec_f[ptr]) == pair:
+            ptr += 1
+        asked.add(pair)
+        return pair
+
     for i, ev in enumerate(U["events"]):
-        if i >= len(rec_f):
+        nxt = tuple(rec_f[ptr]) if ptr < len(rec_f) else None
+        if ev[0] == "block":
+            want = (ev[1], (reported(i) if ev[1] == "TABLE" else ""))
+            if ev[1] == "TABLE" and want[1] is None:
+                want = (ev[1], spelled_name(flat[i][1][3]))       # cellgrid of a table that parses in no form
+            if nxt == want:
+                pair = consume(want)
+            elif want in asked:
+                pair = want
+            elif nxt is not None:
+                out.fail("the name offered to the filter is not the name the parsed block reports",
+                         dict(case, filter=spec, block=i), list(nxt), list(want), key="offered_name")
+                ok = False
+                break
+            else:
+                pair = None
+        else:
+            # a table that does not parse (or an escaping block) reports no name: the pair is what was offered
+            guess = ("TABLE", spelled_name(flat[i][1][3])) if i < len(flat) else None
+            if nxt is not None and nxt == guess:
+                pair = consume(guess)
+            elif guess in asked:
+                pair = guess
+            elif nxt is not None and nxt[0] == flat[i][1][0]:
+                pair = consume(nxt)
+            else:
+                pair = None
+        if pair is None:
             out.fail("a block was interpreted (and the read ended) before the predicate was consulted about it"
                      if F["ending"] != "exhausted" else
                      "the predicate was not consulted for a block the unfiltered read delivers", dict(case, filter=spec),
                      {"calls": rec_f, "ending": F["ending"]}, {"events": len(U["events"])}, key="calls:missing")
             ok = False
             break
-        consumed = i + 1
-        call = rec_f[i]
-        if ev[0] == "block":
-            want = (ev[1], (reported(i) if ev[1] == "TABLE" else ""))
-            if ev[1] == "TABLE" and want[1] is None:
-                want = (ev[1], spelled_name(flat[i][1][3]))       # cellgrid of a table that parses in no form
-            if tuple(call) != tuple(want):
-                out.fail("the name offered to the filter is not the name the parsed block reports",
-                         dict(case, filter=spec, block=i), list(call), list(want), key="offered_name")
-                ok = False
-                break
-        elif ev[0] == "issue":
-            if call[0] != "TABLE":
-                out.count("issue_on_non_table")
-        verdict = p(BlockType[call[0]], call[1])
+        pairs_used.append(pair)
+        verdict = p(BlockType[pair[0]], pair[1])
         if ev[0] == "escaped":
             if verdict:
                 exp_end = {"escaped": ev[1]}
@@ -603,10 +682,9 @@ def eval_case(case, out, tmp, ops, pend, model_ok, src=None):
                 exp_end = {"InputError": ev[1]}
                 break
     if ok and exp_end is not None:
-        if len(rec_f) != consumed:
-            out.fail("the predicate was consulted a different number of times than blocks were processed",
-                     dict(case, filter=spec), {"calls": rec_f}, {"expected_calls": consumed}, key="calls:count")
-        elif F["ending"] != exp_end:
+        if len(rec_f) != len(pairs_used):
+            out.count("calls:asked_%s_often_than_blocks_processed" % ("more" if len(rec_f) > len(pairs_used) else "less"))
+        if F["ending"] != exp_end:
             what = ("a rejected malformed block made the filtered read raise" if exp_end == "exhausted" or
                     (isinstance(F["ending"], dict) and F["ending"] != exp_end) else "filtered read ended differently")
             out.fail(what, dict(case, filter=spec), F["ending"], exp_end, key="rejected_raises")
@@ -632,8 +710,8 @@ def eval_case(case, out, tmp, ops, pend, model_ok, src=None):
     # --- content of a rejected table is irrelevant
     if escaped:
         return
-    cand = [i for i, (si, s) in enumerate(flat) if s[0] == "TABLE" and i < len(rec_f)
-            and not p(BlockType[rec_f[i][0]], rec_f[i][1])]
+    cand = [i for i, (si, s) in enumerate(flat) if s[0] == "TABLE" and i < len(pairs_used)
+            and not p(BlockType[pairs_used[i][0]], pairs_used[i][1])]
     if not cand:
         out.count("content:no_rejected_table")
         return
@@ -648,9 +726,9 @@ def eval_case(case, out, tmp, ops, pend, model_ok, src=None):
     n2 = len(new_block)
     d = n2 - n
     # rebuild the source from what was seen (one row per text line / per sheet row, widths as they were)
-    new_sheets = [list(map(list, s)) for s in src.seen]
-    new_sheets[si] = seen_rows[:start] + new_block + seen_rows[start + n:]
-    src2 = Source(api, new_sheets, tmp, sep, tag=f"c{idx}m")
+    new_sheets = [list(map(list, s)) for s in src.seen_all]
+    new_sheets[src.selected[si]] = seen_rows[:start] + new_block + seen_rows[start + n:]
+    src2 = Source(api, new_sheets, tmp, sep, tag=f"c{idx}m", extra=case.get("extra"))
     src2.shared = src.shared
     same_outside = len(src.seen) == len(src2.seen) and all(
         (a[:start] + a[start + n:] if j == si else a) == (b[:start] + b[start + n2:] if j == si else b)
@@ -659,6 +737,7 @@ def eval_case(case, out, tmp, ops, pend, model_ok, src=None):
     exp_segs = [(t, s_, n_, h_) if i < k_local else (t, s_, n2, h_) if i == k_local else (t, s_ + d, n_, h_)
                 for i, (t, s_, n_, h_) in enumerate(segs[si])]
     if not same_outside or segmentation(src2.seen[si]) != exp_segs:
+        # (the junk rows are built so that this does not happen; a workbook may change its width)
         out.count("content:rewrite_moved_boundaries")
         return
     rec.clear()
@@ -691,6 +770,16 @@ def eval_case(case, out, tmp, ops, pend, model_ok, src=None):
             pend.append(("parse", sj))
         pend.append(("case2", dict(case, rewritten_block=k, sheets2=[grid_to_json(s) for s in src2.seen]), spec, F2,
                      len(src2.seen)))
+
+
+def first_occurrences(calls):
+    seen, out = set(), []
+    for c in calls:
+        c = tuple(c)
+        if c not in seen:
+            seen.add(c)
+            out.append(list(c))
+    return out
 
 
 def combine_model(answers, tracker):
@@ -754,8 +843,10 @@ def run(tier, seed, model_ok, translator, search=False, _limit=None):
                 if m != impl:
                     out.mismatch("filtered read: pdtable vs Lean parseBlocks", dict(case, filter=spec), _brief(impl), _brief(m))
                 calls = [(t, nm) for sheet in offered for (t, nm, _first) in sheet]
-                if [list(c) for c in rec_f] != [list(c) for c in calls[: len(rec_f)]] or \
-                        (F["ending"] == "exhausted" and len(rec_f) != len(calls)):
+                # the sequence of DISTINCT arguments (first occurrences) must agree; how often a pair is asked is not
+                # part of the property
+                fo_rec, fo_calls = first_occurrences(rec_f), first_occurrences(calls)
+                if fo_rec != fo_calls[: len(fo_rec)] or (F["ending"] == "exhausted" and fo_rec != fo_calls):
                     out.mismatch("arguments received by the predicate vs the model's accepts() calls",
                                  dict(case, filter=spec), rec_f, calls)
             else:
